@@ -116,5 +116,28 @@ claim('C19',
       'Not decided: every signal/start-method combination at run time, join timing. ' + _TB,
       'DESIGN.md section 3, C19')
 
-for _p in ['C02', 'C10', 'C11', 'C12', 'C13', 'C14', 'C15', 'C16', 'C17', 'C18', 'C20']:
+claim('C10',
+      'inductive per-method invariant of the semaphore (guard + update in one lock region, who-may-write) and '
+      'acquire/release route pairing over the resolution call sites',
+      'Decides: every write to the semaphore value is +1 (or :=bound) under value < bound with test and update in one '
+      'critical section of the condition; grow moves bound and value together, shrink lowers the bound and takes one '
+      'slot; only the class writes value/bound; with put-locks the slot is acquired before the handle exists; every '
+      'resolution route releases under not-ready before resolving, or ends a worker whose reaping returns the slot; '
+      'the reaper returns one status per removed worker (whatever the kind of exit) and the tick releases once per '
+      'status; close() clears.',
+      'Not decided: blocking behaviour of acquire, the value "at quiescence" over all histories (needs a conservation '
+      'argument over runtime multisets). Known finding D1c: the send-failure route leaks the slot. ' + _TB,
+      'DESIGN.md section 3, C10')
+
+claim('C11',
+      'path/guard decision table of restart_state.step in comparison normal form + guard rules on the refill loop',
+      'Decides: step() raises only under R >= maxR and never in an expired window, resets R before raising, restarts '
+      'count and window when now - T >= maxT, counts exactly one per admitted call, opens the window on the first call; '
+      'the refill loop consults it exactly for statuses outside {clean, recycle} or unknown exits, before the fork, '
+      'and no handler can swallow the refusal; an accepted job resets the count on every path; the supervisor '
+      'restores the pool limiter after a burst of ten ticks with budget 10 x size per second.',
+      'Not decided: the limiter over real time sequences (the table is decided, not its consequences over histories). '
+      + _TB, 'DESIGN.md section 3, C11')
+
+for _p in ['C02', 'C12', 'C13', 'C14', 'C15', 'C16', 'C17', 'C18', 'C20']:
     decline(_p, _NB)
